@@ -94,6 +94,7 @@ package internal
 //@ spec wstatus(w http.ResponseWriter) int = rsGet(rstatus, w)
 //@ -- errors a handler may pass on: made by the backend, by the environment (response writer / encoder),
 //@ -- or a 4xx built by the library itself
+//@ spec fromDecoder(e error) bool
 //@ spec okErr(e error) bool = fromBackend(e) || fromEnv(e) || (400 <= httpCode(e) && httpCode(e) < 500)
 //@ func internal.DecodeXMLRequest(r, v) (err)
 //@   requires R1: validReq(r)
@@ -108,8 +109,28 @@ package internal
 //@   trusted T-xml
 //@   requires R1: p != nil
 //@   decodes v
-//@   ensures P1: err != nil ==> (httpCode(err) == 404 || httpCode(err) == -1) && !hostPath(err)
+//@   ensures P1: err != nil ==> (httpCode(err) == 404 || (httpCode(err) == -1 && fromDecoder(err))) && !hostPath(err)
 //@ func internal.IsNotFound(err) (r)
 //@   ensures N1: r <==> httpCode(err) == 404
 //@ func internal.NewMultiStatus(resps) (ms)
 //@   ensures M1: ms != nil && fresh(ms) && ms.Responses == resps
+
+//@ -- client side: what is put into a Prop element for encoding (T-xml transports it)
+//@ func internal.EncodeProp(values) (p, err)
+//@   ensures E1: err == nil && p != nil && fresh(p) && len(p.Raw) == len(values)
+//@   ensures E2: forall i :: 0 <= i && i < len(values) ==> p.Raw[i].out == values[i]
+//@   loop 1 invariant I1: len(l) == len(values) && fresh(l) && (forall j :: 0 <= j && j < #i ==> l[j].out == values[j])
+//@ -- NewXMLRequest marshals v with encoding/xml into the request body: assumed faithful (T-xml); the ghost
+//@ -- variables sent* record what was handed over
+//@ func internal.(*Client).NewXMLRequest(c, method, path, v) (req, err)
+//@   trusted T-xml
+//@   requires R1: c != nil
+//@   allocates
+//@   assigns ghost:sentCount, ghost:sentMethod, ghost:sentPath, ghost:sentBody
+//@   ensures X1: sentCount == old(sentCount) + 1 && sentMethod == method && sentPath == path && sentBody == v
+//@   ensures X2: err == nil ==> req != nil && fresh(req) && req.Header != nil
+//@ func internal.(*Client).DoMultiStatus(c, req) (ms, err)
+//@   trusted C14
+//@   requires R1: c != nil && req != nil
+//@   allocates
+//@   ensures D1: err == nil ==> ms != nil
